@@ -50,7 +50,7 @@ func specPool(tier string) int {
 }
 
 func (check) Rule() string {
-	return "per case: a type program (struct with config tags / *struct / inline struct / map[string]T / []T / [N]T / interface{} over leaves string bool int int8-64 uint uint8-64 float32/64 time.Duration *regexp.Regexp, pointers to them, four hand-written leaf types with Validate or Unpack and a struct with Validate; validate tags min max positive nonzero required; depth <= 4) drawn from a seed-determined pool (thorough: 3000 programs, bounds the reflect.StructOf types per worker), a data tree generated FROM the program (numbers as int64/uint64/float64/decimal string, durations as text or seconds, free data below interface{}) loaded with NewFrom(PathSep(\".\"), VarExp, MetaData{src-<case>}) which must Unpack into the type (else valid-pair-rejected). Then up to 8 single faults, stratified over the fault kinds applicable in the tree (object/list for primitive, primitive for object/list, bool<->number, unparsable int/uint/float/bool/duration/regexp, out of range for every sized integer/float32/float64/duration incl. 2^63 and 2^64 floats, negative into unsigned, tag validators min/max/positive/nonzero/required with empty/null/missing, failing Validate()/Unpack() of the hand-written types, ${nope.missing}, self-referencing ${<path>}, array too short/long), each at one setting of the tree (struct fields, inline fields, map entries, list and array elements, below pointers, inside interface{} data). Every fault is observed on the configuration built directly and on one built by a randomly chosen other route: merge chains under the default policy (fault delivered by the later operand over an absent or placeholder setting / fault present first and the surroundings merged over it), AppendValues / PrependValues chains that cut the outermost list on the fault path into up to three operands (renumbering), NewFrom plus Remove of 1-3 extra elements in front of the fault in a list on the path (shifting), the value written by Set*/SetChild, an enclosing subtree attached by SetChild (fresh or taken from another tree), the key removed by Remove; the valid twin of every routed history must still unpack. Observations: Unpack (with and without PathSep), the getters that must fail for the fault (dotted name, name+idx, or relative to an intermediate Child), Unpack of an intermediate Child into the matching sub-type. Plus, per case, ~600 calls driving the error paths of Bool/Int/Uint/Float/String/Child, Has, CountField, Remove, Set*, SetChild, NewFrom, Merge and Unpack (missing, through primitives, through failing references, wrong types, unsupported values and targets, non-string keys, duplicate keys, broken ${ syntax, failing resolvers). Distinct = distinct (type program and tree shape, fault kind, depth class, route)."
+	return "per case: a type program (struct with config tags / *struct / inline struct / map[string]T / []T / [N]T / interface{} over leaves string bool int int8-64 uint uint8-64 float32/64 time.Duration *regexp.Regexp, pointers to them, four hand-written leaf types with Validate or Unpack and a struct with Validate; validate tags min max positive nonzero required; depth <= 4) drawn from a seed-determined pool (thorough: 3000 programs, bounds the reflect.StructOf types per worker), a data tree generated FROM the program (numbers as int64/uint64/float64/decimal string, durations as text or seconds, free data below interface{}) loaded with NewFrom(PathSep(\".\"), VarExp, MetaData{src-<case>}) which must Unpack into the type (else valid-pair-rejected). Then up to 8 single faults, stratified over the fault kinds applicable in the tree (object/list for primitive, primitive for object/list, bool<->number, unparsable int/uint/float/bool/duration/regexp, out of range for every sized integer/float32/float64/duration incl. 2^63 and 2^64 floats, negative into unsigned, tag validators min/max/positive/nonzero/required with empty/null/missing, failing Validate()/Unpack() of the hand-written types, a struct setting left out whose first validated member then fails on its zero value, ${nope.missing}, self-referencing ${<path>}, array too short/long), each at one setting of the tree (struct fields, inline fields, map entries, list and array elements, below pointers, inside interface{} data). Every fault is observed on the configuration built directly and on one built by a randomly chosen other route: merge chains under the default policy (fault delivered by the later operand over an absent or placeholder setting / fault present first and the surroundings merged over it), AppendValues / PrependValues chains that cut the outermost list on the fault path into up to three operands (renumbering), NewFrom plus Remove of 1-3 extra elements in front of the fault in a list on the path (shifting), the value written by Set*/SetChild, an enclosing subtree attached by SetChild (fresh or taken from another tree), the key removed by Remove; the valid twin of every routed history must still unpack. Observations: Unpack (with and without PathSep), the getters that must fail for the fault (dotted name, name+idx, or relative to an intermediate Child), Unpack of an intermediate Child into the matching sub-type. Plus, per case, ~600 calls driving the error paths of Bool/Int/Uint/Float/String/Child, Has, CountField, Remove, Set*, SetChild, NewFrom, Merge and Unpack (missing, through primitives, through failing references, wrong types, unsupported values and targets, non-string keys, duplicate keys, broken ${ syntax, failing resolvers). Distinct = distinct (type program and tree shape, fault kind, depth class, route)."
 }
 
 func (check) Assumptions() []string {
@@ -60,6 +60,8 @@ func (check) Assumptions() []string {
 		"single fault only: all other settings conform to the type, so which of several guilty settings is named cannot arise; keys never contain '.', quotes or '$', and are never numeric",
 		"target types never put pointers inside slices or maps, never point to maps, slices or arrays, use arrays only as struct fields and *regexp.Regexp only as a struct field (other shapes are C06/C07 findings)",
 		"a list where an object is expected is not clearly an error by the documentation (a list is a Config object): if Unpack accepts it this is only counted; if it fails the error must name the setting or one below it",
+		"the source is not demanded where no value exists that could carry it (a member of an absent struct) nor for the lenient list-for-object kind; for an absent or null setting with a required tag it is demanded from the holder (the library attaches the holder's source there)",
+		"signatures: <problem>:<fault kind>:<target shape>[+inline][+from-child]:<depth class>[:only-via-<route>] (the suffix when the directly built configuration does not show the problem under the same views); fault-not-detected carries no depth class (no message exists that could misname anything); error-names-wrong-source (the source of another operand of the chain) extends the problem list; two predicates get their own signature: ...:interface-target (the enclosing interface{} slot is named instead of the leaf inside) and ...:drops-struct-key (the key of an absent struct is left out of the path of its member)",
 		"not demanded: Error.Path(), the wording, which Reason is used, errors of the YAML/JSON/HJSON syntax decoders and of the OS; whether the typed-error drive calls fail at all (only counted: drive_no_error)",
 		"panics are reported (panic:<entry point>) but inputs known to panic (C07: Unpack(&interface{}), negative idx, nil and unaddressable targets, complex values) are not generated",
 	}
@@ -93,7 +95,7 @@ func (check) Run(seed int64, tier string, idx int, verbose bool) harness.Result 
 	var sample []string
 	if cs.validPair() {
 		var ps []*position
-		positions(&ps, V, top, nil)
+		positions(&ps, V, top, nil, "", 0)
 		for _, p := range ps {
 			cs.byPath[pathStr(p.path)] = p
 		}
@@ -238,7 +240,8 @@ func (cs *caseState) runFault(pos *position, f fault) {
 		res.Ev("faults_below_interface_slot", 1)
 	}
 	routes := planRoutes(cs.r, cs.V, pos.path, f, cs.base)
-	baseline := cs.observe(directRoute(cs.base), T, pos, f, nil)
+	obsSeed := cs.r.Int63()
+	baseline := cs.observe(directRoute(cs.base), T, pos, f, nil, obsSeed)
 	if len(routes) == 0 {
 		return
 	}
@@ -246,7 +249,7 @@ func (cs *caseState) runFault(pos *position, f fault) {
 	if rt.name != "remove-key" && !cs.twin(rt, pos, f) {
 		return
 	}
-	cs.observe(rt, T, pos, f, baseline)
+	cs.observe(rt, T, pos, f, baseline, obsSeed)
 }
 
 // twin replays the history with the valid tree: the result must unpack.
@@ -295,10 +298,15 @@ func (cs *caseState) historyFailed(rt route, err error, what string) {
 // observe builds the configuration holding T via the route and looks at the
 // fault through Unpack, the getters and an intermediate Child. It returns the
 // set of problems seen (for telling route-specific deviations apart).
-func (cs *caseState) observe(rt route, T *model.Node, pos *position, f fault, baseline map[string]bool) map[string]bool {
-	res, r := cs.res, cs.r
+func (cs *caseState) observe(rt route, T *model.Node, pos *position, f fault, baseline map[string]bool, obsSeed int64) map[string]bool {
+	// the same views (options, getter, form, child) are taken on the directly
+	// built configuration and on the routed one
+	res, r := cs.res, rand.New(rand.NewSource(obsSeed))
 	seen := map[string]bool{}
 	want := pathStr(pos.path)
+	if f.wantRel != "" {
+		want += "." + f.wantRel
+	}
 	var b built
 	var err error
 	panicked, pv, where := harness.Safe(func() { b, err = rt.build(T) })
@@ -334,10 +342,19 @@ func (cs *caseState) observe(rt route, T *model.Node, pos *position, f fault, ba
 		key := entry + "|" + problem
 		seen[key] = true
 		sig := problem + ":" + f.kind + ":" + shape + ":" + pos.depthClass()
-		if problem == "error-names-wrong-path" && pos.ifaceRoot != nil && len(pos.path) > len(pos.ifaceRoot) && entry == "Unpack" &&
+		if problem == "fault-not-detected" {
+			// no message that could misname anything: where the setting sits
+			// does not matter, only what was put in place of what
+			sig = problem + ":" + f.kind + ":" + strings.TrimSuffix(strings.TrimSuffix(shape, "+from-child"), "+inline")
+		}
+		if problem == "error-names-wrong-path" && pos.ifaceRoot != nil && len(pos.path) > len(pos.ifaceRoot) && (entry == "Unpack" || entry == "Child.Unpack") &&
 			contains(named, pathStr(pos.ifaceRoot)) {
 			// the enclosing interface{} slot is named instead of the leaf inside
 			sig = problem + ":" + f.kind + ":interface-target"
+		}
+		if problem == "error-names-wrong-path" && f.wantRel != "" && contains(named, strings.TrimPrefix(pathStr(pos.path[:len(pos.path)-1])+"."+f.wantRel, ".")) {
+			// the key of the absent struct itself is left out of the path
+			sig = problem + ":" + f.kind + ":drops-struct-key"
 		}
 		if baseline != nil && !baseline[key] {
 			sig += ":only-via-" + rt.name
@@ -354,12 +371,16 @@ func (cs *caseState) observe(rt route, T *model.Node, pos *position, f fault, ba
 			report("fault-not-detected", shape, entry, "<no error>", nil)
 			return
 		}
-		if p := typed(res, entry, err, ctx()); p != "" {
+		if p := typed(res, strings.TrimPrefix(entry, "Child."), err, ctx()); p != "" {
 			seen[entry+"|"+p] = true
 		}
 		msg := errText(err)
 		v := judgeMessage(msg, want, f.lenient, cs.base, exact)
 		for _, p := range v.problems {
+			if (f.lenient || f.noSource) && p == "error-lacks-source" {
+				res.Ev("source_not_demanded_and_absent", 1)
+				continue
+			}
 			report(p, shape, entry, msg, v.named)
 		}
 		if len(v.problems) == 0 {
@@ -421,6 +442,9 @@ func (cs *caseState) observe(rt route, T *model.Node, pos *position, f fault, ba
 	if len(pos.path) >= 2 && r.Intn(3) == 0 {
 		var js []int
 		for j := 1; j < len(pos.path); j++ {
+			if strings.HasPrefix(f.kind, "validator-") && j > pos.tagHolder {
+				continue // the tag sits on a field of a struct the child does not contain
+			}
 			if pp := cs.byPath[pathStr(pos.path[:j])]; pp != nil && pp.sp != nil && (pp.sp.kind == kStruct || pp.sp.kind == kMap || pp.sp.kind == kSlice) {
 				js = append(js, j)
 			}
@@ -447,7 +471,7 @@ func (cs *caseState) observe(rt route, T *model.Node, pos *position, f fault, ba
 				typed(res, "Child", cerr, ctx())
 				res.Violate("history-step-failed:child:Child:"+reasonClass(cerr), "Child(%q) of an existing container failed: %s; %s", pathStr(pos.path[:j]), clip(errText(cerr), 300), ctx())
 			default:
-				judge("Unpack", pos.shape()+"+from-child", cerr)
+				judge("Child.Unpack", pos.shape()+"+from-child", cerr)
 			}
 		}
 	}
